@@ -356,6 +356,21 @@ def gen_netlist_probe(rng, decimal):
             "dims": [min(ds), max(ds)] if ds else [F(1), F(1)], "note": "doc", "cand": None}
 
 
+def gen_yaml_text_probe(rng):
+    """a netlist document given as TEXT whose scalars are read differently by YAML 1.1 and 1.2 (octal-looking
+    integers, yes/no/on/off): the result must not depend on documents parsed earlier in the process"""
+    a = rng.choice(["0100", "010", "100", "0o17", "1_000", "64"])
+    cx, cy = rng.choice(["010", "8", "020", "1.5"]), rng.choice(["020", "16", "07", "2.5"])
+    flag = rng.choice(["", ", fixed: yes", ", fixed: no", ", flip: on", ", terminal: off", ""])
+    txt = ("Modules:\n"
+           f"  A: {{area: {a}, center: [{cx}, {cy}]}}\n"
+           f"  B: {{rectangles: [[4, 4, 2, 2]], hard: true{flag}}}\n"
+           "  C: {area: 9}\n"
+           "Nets: [[A, B], [A, B, C, 2]]\n")
+    return {"op": {"k": "netlist", "text": txt}, "kind": "netlist", "stream": "decimal", "variant": None,
+            "dims": [F(1), F(100)], "note": "yaml-text", "cand": None}
+
+
 def gen_sat(rng):
     c = c07.gen_case(rng)
     probe = {"op": {"k": "sat", "posts": c["posts"], "solve": rng.random() < 0.3}, "kind": "sat", "stream": "logic",
@@ -461,6 +476,15 @@ def gen_history_op(rng, probe, base):
         P = base * pow2(k)
         if kind == "netlist":
             h = gen_netlist_hist(rng, P, decimal=rng.random() < 0.3)
+            if rng.random() < 0.5:
+                # the same design given as YAML text (flow style = JSON), half of the time with a version directive:
+                # a parser object that survives the call would carry the directive over to later documents
+                import json as _json
+                txt = _json.dumps(h["op"]["doc"])
+                if rng.random() < 0.6:
+                    txt = "%YAML 1.1\n---\n" + txt
+                h["op"] = {"k": "netlist", "text": txt}
+                h["note"] = "yaml-text"
         elif kind == "die":
             h = gen_die(rng, P, "robust", decimal=rng.random() < 0.2)
         elif kind == "alloc":
@@ -485,7 +509,7 @@ def gen_history_op(rng, probe, base):
 
 def gen_probe(rng, quick=True):
     kind = rng.choices(["stog", "alloc", "die", "netlist", "sat", "legal", "strop", "defaults", "die-decimal",
-                        "stog-decimal"], [18, 16, 16, 8, 14, 7, 6, 6, 6, 3])[0]
+                        "stog-decimal"], [18, 16, 16, 12, 14, 7, 6, 6, 6, 3])[0]
     base = pow2(rng.choice([-6, -3, 0, 0, 0, 2, 5, 9]))
     variant = "nonrobust" if rng.random() < 0.3 else "robust"
     if kind == "stog":
@@ -495,6 +519,8 @@ def gen_probe(rng, quick=True):
     if kind == "die":
         return gen_die(rng, base, variant), base
     if kind == "netlist":
+        if rng.random() < 0.5:
+            return gen_yaml_text_probe(rng), F(1)
         return gen_netlist_probe(rng, decimal=rng.random() < 0.6), F(1)
     if kind == "sat":
         return gen_sat(rng)[0], F(1)
@@ -548,6 +574,14 @@ def gen_group(rng, nprobes):
                 hist.insert(rng.randrange(len(hist) + 1),
                             strip({"op": {"k": "sat", "posts": vs + rel}, "kind": "sat", "stream": "logic",
                                    "dims": None, "cand": [], "note": "related"}))
+    # a document given as text is probed after another TEXT document that carries a YAML version directive
+    for p, _ in probes:
+        if p.get("note") == "yaml-text" and rng.random() < 0.85:
+            import json as _json
+            h = gen_netlist_hist(rng, F(1), decimal=False)
+            h["op"] = {"k": "netlist", "text": "%YAML 1.1\n---\n" + _json.dumps(h["op"]["doc"])}
+            h["note"] = "yaml-text"
+            hist.insert(rng.randrange(len(hist) + 1), strip(h))
     # objects built from default arguments: an earlier caller that used (and modified) what it was handed
     for p, _ in probes:
         if p["kind"] == "defaults" and rng.random() < 0.7:
